@@ -768,9 +768,8 @@ class ScipyOptimizeDriver(Driver):
 
         # Note, scipy defines constraints to be satisfied when positive,
         # which is the opposite of OpenMDAO.
-        lower = meta['lower']
-        if isinstance(lower, np.ndarray):
-            lower = lower[idx]
+        # use the same (driver scaled) bound as _confunc to pick the side of the constraint
+        lower = self._autoscaler.get_bounds_scaling('constraint')[0][name][idx]
 
         if dbl or (lower <= -INF_BOUND):
             return -grad[grad_idx, :]
